@@ -73,6 +73,9 @@ func (f *vhFailures) add(cause, format string, args ...any) {
 	}
 }
 
+// wants reports whether another example of this cause will be kept (lets callers skip building expensive messages).
+func (f *vhFailures) wants(cause string) bool { return len(f.byCause[cause]) < 6 }
+
 func (f *vhFailures) report(t *testing.T) {
 	names := map[string]bool{}
 	for _, k := range f.known {
@@ -118,19 +121,23 @@ func vhSafe(fn func()) (panicMsg string) {
 
 // vhBitsOf returns the bits of bs from its read cursor to its end as a string of '0'/'1'.
 func vhBitsOf(bs boc.BitString) string {
-	var sb strings.Builder
-	for {
+	n := bs.BitsAvailableForRead()
+	if n < 0 {
+		n = 0
+	}
+	out := make([]byte, 0, n)
+	for i := 0; i < n; i++ {
 		b, err := bs.ReadBit() // bs is a copy: the caller's cursor is not moved
 		if err != nil {
 			break
 		}
 		if b {
-			sb.WriteByte('1')
+			out = append(out, '1')
 		} else {
-			sb.WriteByte('0')
+			out = append(out, '0')
 		}
 	}
-	return sb.String()
+	return string(out)
 }
 
 // vhCellBits returns all bits of c (from bit 0).
@@ -143,17 +150,9 @@ func vhCellBits(c *boc.Cell) string {
 // vhCellRemaining returns the view of c from its read cursors: remaining bits and remaining refs.
 func vhCellRemaining(c *boc.Cell) (string, []*boc.Cell) {
 	cc := *c
-	var sb strings.Builder
-	for {
-		b, err := cc.ReadBit()
-		if err != nil {
-			break
-		}
-		if b {
-			sb.WriteByte('1')
-		} else {
-			sb.WriteByte('0')
-		}
+	bits := vhBitsOf(cc.RawBitString())
+	if skip := len(bits) - cc.BitsAvailableForRead(); skip > 0 && skip <= len(bits) {
+		bits = bits[skip:]
 	}
 	refs := c.Refs()
 	n := c.RefsAvailableForRead()
@@ -163,7 +162,7 @@ func vhCellRemaining(c *boc.Cell) (string, []*boc.Cell) {
 	if n > len(refs) {
 		n = len(refs)
 	}
-	return sb.String(), refs[len(refs)-n:]
+	return bits, refs[len(refs)-n:]
 }
 
 // vhTree renders the whole tree under c (from bit 0 / ref 0) as text: type:bits{child,child}.
